@@ -1,12 +1,14 @@
 package main
 
 import (
+	"bytes"
 	"encoding/json"
 	"errors"
 	"fmt"
 	"os"
 	"path/filepath"
 	"sort"
+	"strconv"
 	"strings"
 	"time"
 
@@ -47,6 +49,9 @@ func (o dtOp) String() string {
 	return s
 }
 
+// a member that spells the score-ordered internal key of (score 1, member "m1"): score text, member, member length
+const c19Collide = "1m1\x02\x00\x00\x00"
+
 func c19Alphabet() []dtOp {
 	k := "k1"
 	a := []dtOp{
@@ -59,7 +64,12 @@ func c19Alphabet() []dtOp {
 	}
 	a = append(a,
 		dtOp{C: "set", Key: "k2", Dev: true}, dtOp{C: "hset", Key: "k2", F: "f1", Dev: true}, dtOp{C: "rpush", Key: "k2", Dev: true}, dtOp{C: "del", Key: "k2", Dev: true},
-		dtOp{C: "advance", Dev: true}, dtOp{C: "restart", Dev: true})
+		dtOp{C: "advance", Dev: true}, dtOp{C: "restart", Dev: true},
+		// edge values: a score that needs more than 24 mantissa bits, a string whose bytes do not decode as container
+		// metadata (every 0xFF), a sorted-set member that looks like another member's score-ordered key
+		dtOp{C: "zadd", Key: k, F: "m2", Sc: 16777217.5, Dev: true},
+		dtOp{C: "set", Key: k, F: "ff", Dev: true},
+		dtOp{C: "zadd", Key: k, F: c19Collide, Sc: 7, Dev: true})
 	return a
 }
 
@@ -157,6 +167,9 @@ func (r *dtRun) apply(o dtOp) (string, bool) {
 		}
 	case "set":
 		v := r.val()
+		if o.F == "ff" {
+			v = bytes.Repeat([]byte{0xff}, 12)
+		}
 		var ttl time.Duration
 		if o.TTL != 0 {
 			ttl = time.Duration(o.TTL) * time.Second
@@ -363,7 +376,7 @@ func (r *dtRun) battery() string {
 			v, err := r.svc.HGet(key, []byte(f))
 			fmt.Fprintf(&b, "hget %s.%s=%s;", k, f, classify(v, err))
 		}
-		for _, mm := range []string{"m1", "m2"} {
+		for _, mm := range []string{"m1", "m2", c19Collide} {
 			ok, err := r.svc.SIsMember(key, []byte(mm))
 			if isWrongType(err) {
 				fmt.Fprintf(&b, "sismember %s.%s=WRONGTYPE;", k, mm)
@@ -437,7 +450,7 @@ func (r *dtRun) modelBattery() string {
 				fmt.Fprintf(&b, "hget %s.%s=absent;", k, f)
 			}
 		}
-		for _, mm := range []string{"m1", "m2"} {
+		for _, mm := range []string{"m1", "m2", c19Collide} {
 			if p, v := wt(datatype.Set); v == nil {
 				if p == "absent" {
 					p = "false"
@@ -483,12 +496,23 @@ func runC19(cfg Cfg, ops []dtOp, res *TaskResult) (v *Violation) {
 	defer os.RemoveAll(root)
 	res.Execs++
 	r := &dtRun{opts: cfg.options(filepath.Join(root, "db")), m: dtModel{}}
+	collideUsed := false
 	fail := func(clause, detail string) *Violation {
 		strs := make([]string, len(ops))
 		for i, o := range ops {
 			strs[i] = o.String()
 		}
-		return &Violation{Prop: "C19", Clause: clause, Sig: clause, Detail: fmt.Sprintf("cfg=%s commands=[%s]\n%s", cfg, strings.Join(strs, "; "), detail)}
+		sig := clause
+		// the sorted-set key encoding is ambiguous for a member that spells another member's score-ordered key (known
+		// finding KF-3): a failure on that member's probe, or in a sequence that already used such a member, is its own signature
+		first := detail
+		if i := strings.Index(first, "\n"); i >= 0 {
+			first = first[:i]
+		}
+		if strings.Contains(first, c19Collide) || strings.Contains(first, strings.Trim(strconv.Quote(c19Collide), "\"")) || collideUsed {
+			sig += ":member-spells-score-key"
+		}
+		return &Violation{Prop: "C19", Clause: clause, Sig: sig, Detail: fmt.Sprintf("cfg=%s commands=[%s]\n%s", cfg, strings.Join(strs, "; "), detail)}
 	}
 	defer func() {
 		if rec := recover(); rec != nil {
@@ -505,6 +529,7 @@ func runC19(cfg Cfg, ops []dtOp, res *TaskResult) (v *Violation) {
 	r.svc = svc
 	types := map[byte]bool{}
 	for i, o := range ops {
+		collideUsed = collideUsed || o.F == c19Collide
 		d, unjudged := r.apply(o)
 		res.Transitions++
 		if unjudged {
@@ -574,8 +599,13 @@ func c19Tasks(tier string) []Task {
 								return false
 							}
 							v.Replay = mustJSON(map[string]any{"engine": "seq", "property": "C19", "cfg": cfg, "ops": ops})
+							if isKnown(v) {
+								addViolation(res, v) // one per signature; exploration goes on
+								res.count("known_suppressed", 1)
+								return true
+							}
 							res.Violations = append(res.Violations, *v)
-							return len(res.Violations) < 2
+							return len(res.Violations) < 4
 						}
 						if len(res.Samples) == 0 {
 							res.Samples = append(res.Samples, fmt.Sprintf("%s :: %v", cfg, ops))
@@ -593,7 +623,7 @@ func init() {
 	register(&Check{
 		Prop:   "C19",
 		Engine: "seq",
-		Rule:   "all command sequences within (depth, deviation bound) over 22 mutating commands on two keys (all five types, deletion, re-creation with another type, clock advance past the TTL, restart); every reply is compared with a data-type model, and after every step a probe battery (every read command on every key/field/member) is compared with the model; across restart the battery must be unchanged. non-trivial = at least two different types were live during the sequence",
+		Rule:   "all command sequences within (depth, deviation bound) over 25 mutating commands on two keys (all five types, deletion, re-creation with another type, clock advance past the TTL, restart); every reply is compared with a data-type model, and after every step a probe battery (every read command on every key/field/member) is compared with the model; across restart the battery must be unchanged. non-trivial = at least two different types were live during the sequence",
 		Assumptions: []string{
 			"the clock (time.Now in package datatype) is owned by the harness: strictly monotone, advanced by 2 s by the Advance symbol; TTL is 1 s",
 			"not judged (sequence pruned there): other-type commands on an expired string, and on a container of another type that was emptied but not deleted (Redis removes it, the code keeps its metadata)",
